@@ -48,19 +48,22 @@ logging.getLogger("asyncio").setLevel(logging.CRITICAL)
 ID = "C17"
 DRIVER = "drv_c17"
 PROPS = ["Ptk.Props.C17", "Ptk.Props.C17Buf"]
-LEVEL_TEXT = ("Lean 4 theorems over an executable model of the accept boundary: KeyProcessor.process_keys with "
-              "the is_done gate (CPR responses still consumed, c-j re-feeding Enter at the front), "
-              "Application.run_async (type-ahead replay at start, read_from_input guard, store_typeahead on exit) "
-              "and the type-ahead store, under an arbitrary schedule of writes / reads of any size / starts / "
-              "finishes: conservation (no key lost or duplicated, order kept), results = the segments of the "
-              "typed key stream for EVERY schedule and CPR placement, accepted line frozen, CPR never applied as "
-              "text, no key stuck in the queue, process_keys terminates; the model is tied to /repo on every run "
-              "by a step-by-step correspondence on explicit schedules and an end-to-end correspondence "
-              "(k prompts on one pipe; pre-fed, writer thread, writer task; byte-level chunking) plus the oracle")
-LEVEL_NOTE = ("PARTIAL: read boundaries, finish points and timer expiry are nondeterministic inputs of the model "
+LEVEL_TEXT = ("Lean 4 theorems over two executable models of the accept boundary, for EVERY schedule of writes / reads "
+              "of any size / starts / timer expiries / finishes and every CPR placement. Layer 1 (process_keys with "
+              "the is_done gate, c-j re-feed, run_async type-ahead replay / read guard / store_typeahead): no key "
+              "lost, duplicated or reordered; results = the segments of the typed key stream; k lines -> k prompts "
+              "(a fair schedule finishes all k); accepted line frozen; CPR never text; termination. Layer 2 (key "
+              "buffer of KeyProcessor._process: multi-key bindings, prefix waiting, retry loop, flush timer, "
+              "push-back on exit, CPR outside the buffer) for EVERY state-dependent binding registry: conservation, "
+              "nothing dispatched after the exiting call, no double exit, key buffer empty at exit. Both models are "
+              "tied to /repo on every run by a step-by-step correspondence on explicit schedules, an end-to-end "
+              "correspondence (k prompts on one pipe: pre-fed, writer thread, writer task, byte-level chunking) and "
+              "the property oracle")
+LEVEL_NOTE = ("PARTIAL: read boundaries, finish points and timer expiry are nondeterministic inputs of the models "
               "(the theorems quantify over all of them); the OS pipe, asyncio scheduling, the bytes->keys parser "
-              "(C03) and the line editor are runtime/other properties and only sampled here. Trusted: Lean kernel, "
-              "axioms propext/Classical.choice/Quot.sound only; hand-written model validated by the correspondence")
+              "(C03), the parser's own flush timer and the line editor are runtime/other properties and only "
+              "sampled here. Trusted: Lean kernel, axioms propext/Classical.choice/Quot.sound only; hand-written "
+              "models validated by the correspondence")
 TECHNIQUE = "Lean 4 proof over an executable model + differential correspondence + property oracle"
 RULE = ("step cases: every script over {a, Enter, CPR, c-j} up to the tier's length x every chunking into writes x "
         "4 schedule patterns (pre-fed / interleaved / late finish with reads while done / stale reader callback "
@@ -75,19 +78,25 @@ EXHAUSTIVE_SCOPE = {
     "quick": "step: scripts over {a,Enter,CPR,c-j} len<=3 with >=1 accepting key, all chunkings into writes, 4 "
              "schedule patterns; key-buffer layer: scripts over {a,Enter,c-x,c-space c-c,c-c} len<=3, 2-4 chunkings, "
              "schedule patterns with and without the flush timer",
-    "thorough": "step: scripts over {a,Enter,CPR,c-j,b} len<=3 all chunkings (len 4: 3 chunkings), 4 schedule "
-                "patterns; key-buffer layer: scripts over {a,Enter,c-x,c-space c-c,c-c,esc-Enter,CPR,esc-q} len<=3 "
-                "all chunkings (len 4 over the first five: 2 chunkings), patterns with and without the flush timer"}
+    "thorough": "step: scripts over {a,Enter,CPR,c-j,b} len<=3 all chunkings (len 4: 2 chunkings), 4 schedule "
+                "patterns; key-buffer layer: scripts over {a,Enter,c-x,c-space c-c,c-c,esc-Enter,CPR,esc-q} len<=2 "
+                "all chunkings (len 3: 3 chunkings; len 4 over the first five: 2 chunkings), patterns with and "
+                "without the flush timer"}
 TRUSTED = ["harness/c17.py: token table (bytes <-> key code), the stepper that calls the registered reader callback, "
            "the comparison of states/results",
-           "Ptk/Model/C17.lean is a hand translation of process_keys / run_async / typeahead.py / the default "
-           "single-line emacs bindings used in the scripts (correspondence-checked)"]
+           "Ptk/Model/C17.lean and Ptk/Model/C17Buf.lean are hand translations of process_keys / _process / "
+           "run_async / typeahead.py / the default single-line emacs bindings used in the scripts "
+           "(correspondence-checked)"]
 ASSUMPTIONS = ["asyncio runs callbacks of one loop one at a time (the model's events are atomic)",
                "bytes -> key presses is a function of the concatenated byte stream (property C03); incomplete escape "
                "sequences are not flushed by a timer in the byte-cut cases (ttimeoutlen raised to 30 s there)",
                "one pipe input = one typeahead hash; DummyOutput (no CPR requests are pending: "
                "renderer.waiting_for_cpr is False)"]
-PARTIAL_SCOPE = ["timer expiry (_Flush / flush_input) is not modelled: scripts contain no lone Escape",
+PARTIAL_SCOPE = ["the parser's flush timer (flush_input / ttimeoutlen) is not modelled: scripts contain no lone Escape; "
+                 "the key processor's flush timer (_Flush / timeoutlen) is an event of the second-layer model only",
+                 "handlers that feed keys (c-j) are in the first layer only; the second layer's concrete registry "
+                 "covers the keys the scripts use (c-x prefix, c-x c-x, escape Enter, escape + unbound key, "
+                 "c-space c-c), its theorems cover every registry",
                  "renderer.waiting_for_cpr branch of read_from_input and wait_for_cpr_responses (needs a terminal "
                  "that answers CPR requests) are not modelled",
                  "exceptions inside handlers (process_keys' reset()+empty_queue() path), run_in_terminal, "
@@ -325,7 +334,12 @@ async def _step_async(case) -> _Run:
                 limit[0] = max(1, min(1024, nbytes)) if n < len(pipe_toks) else 1024
                 cb = _vt100._current_callbacks.get((loop, fd)) or last_cb
                 if cb is not None:
-                    cb()
+                    try:
+                        cb()
+                    except Exception as e:  # noqa  (e.g. "Return value already set")
+                        run.notes.append(("read_from_input | raised " + type(e).__name__,
+                                          str(e)[:200]))
+                        run.lines.append("exception in read_from_input: " + type(e).__name__)
                 limit[0] = 1024
             elif op == "F":
                 if task is not None and app.is_done:
@@ -974,15 +988,15 @@ def cases(tier, rng):
                 continue
             comps = list(compositions(n))
             if n == 4:
-                # all-in-one, all singletons and one seeded chunking in between
-                comps = [comps[0], comps[-1], comps[rng.randrange(1, len(comps) - 1)]]
+                # all-in-one and one seeded chunking
+                comps = [comps[0], comps[rng.randrange(1, len(comps))]]
             for sizes in comps:
                 for pat in ("pre", "inter", "late", "stale"):
                     if pat == "pre" and len(sizes) > 1:
                         continue
                     yield mk_step(pattern_events(toks, sizes, pat), k)
     # ---- random step cases
-    nstep = 160 if quick else 3000
+    nstep = 120 if quick else 2000
     for _ in range(nstep):
         nl = rng.choice([1, 2, 2, 3, 4])
         toks = inject_cpr(rng, rand_script(rng, nl, rich=True), p=rng.choice([0, 0.1, 0.3]))
@@ -991,7 +1005,7 @@ def cases(tier, rng):
             k = max(1, k - 1)              # fewer prompts than lines: the rest must stay unconsumed
         yield mk_step(rand_events(rng, toks, k), k)
     # ---- end to end
-    ne2e = 200 if quick else 3000
+    ne2e = 160 if quick else 2000
     modes = ["pre", "thread", "threadbytes", "async"]
     for i in range(ne2e):
         mode = modes[i % 4]
@@ -1016,6 +1030,8 @@ def cases(tier, rng):
             comps = list(compositions(n))
             if (quick and n == 3) or n == 4:
                 comps = [comps[0], comps[-1]]
+            elif n == 3:
+                comps = [comps[0], comps[-1], comps[rng.randrange(1, len(comps) - 1)]]
             for sizes in comps:
                 for pat in ("pre", "inter", "interT", "late"):
                     if pat == "pre" and len(sizes) > 1:
@@ -1024,12 +1040,12 @@ def cases(tier, rng):
                         continue
                     yield mk_step_b(pattern_events_b(units, sizes, pat), k)
     # ---- second layer: random step cases and end to end
-    nb = 80 if quick else 1500
+    nb = 60 if quick else 1000
     for _ in range(nb):
         units = rand_units_b(rng, rng.choice([1, 2, 2, 3]), rng.choice([0, 0.1, 0.3]))
         toks = flatten_units(units)
         yield mk_step_b(rand_events_b(rng, units), fins(toks))
-    nbe = 60 if quick else 1200
+    nbe = 45 if quick else 800
     for i in range(nbe):
         units = rand_units_b(rng, rng.choice([1, 2, 3, 4]), rng.choice([0, 0.1, 0.25]))
         if units[-1] == ["CC"] and len(units) >= 2 and units[-2] == ["CSPACE"]:
